@@ -117,7 +117,9 @@ pub fn build_tree<D: Density>(d: &D, edge: &State, logu: f64, v: i8, j: usize, e
             ((joint - logu).abs() / scale).min((joint - (logu - 1000.0)).abs() / (scale + 1000.0))
         };
         let e = (joint - joint0).exp();
-        let alpha = if e.is_nan() { 1.0 } else { e.min(1.0) };
+        // a NaN energy is a rejected point (the statement leaves min(1, exp(NaN)) undefined; the
+        // comparison of the statistic is skipped for such trees, see `alpha_has_nan`)
+        let alpha = if e.is_nan() { 0.0 } else { e.min(1.0) };
         return Tree {
             minus: s.clone(),
             plus: s.clone(),
